@@ -104,7 +104,10 @@ func c20Gen(rng *verifsim.RNG, idx int, tier string) *Plan {
 		if n.OnlyScript && rng.Bool(0.4) {
 			// the signal task parked in its log write: between recording the
 			// signal and cancelling everybody
-			p.Faults = append(p.Faults, Fault{Seam: "log", Hold: "hl"})
+			// (the supervisor notification, not the log write before it: a log
+			// write is made under log.Logger's own mutex, and parking it stops
+			// everybody else who logs for real, not only in the simulation)
+			p.Faults = append(p.Faults, Fault{Seam: "notify", From: sigAt, Hold: "hl"})
 			p.Actions = append(p.Actions, Action{At: sigAt + int64(rng.Dur(time.Millisecond, 2*time.Second)), Kind: "release", Hold: "hl"})
 			p.Class = "scripted-only+signal-held"
 		}
@@ -139,6 +142,23 @@ func c20Gen(rng *verifsim.RNG, idx int, tier string) *Plan {
 		// read has to be interrupted first): Serve waits for it like for any task
 		p.Faults = append(p.Faults, Fault{Seam: "watch.stop", Count: -1, Lat: int64(rng.Dur(50*time.Millisecond, 2*time.Second))})
 		p.Class += "+slow-watcher-stop"
+	}
+	listenFaults := false
+	for _, f := range p.Faults {
+		if f.Seam == "http.listen" {
+			listenFaults = true
+		}
+	}
+	if !scripted && n.Config.Debug != nil && !listenFaults && sigAt > 600*nsMs && rng.Bool(0.3) {
+		// a debug request is in flight when the signal arrives, from a client that
+		// has stopped reading (its response never drains): the HTTP task stops
+		// like every other task, and Serve returns
+		path := "/_/api/interfaces"
+		if n.Config.Debug.Prometheus && rng.Bool(0.6) {
+			path = "/metrics"
+		}
+		p.Actions = append(p.Actions, Action{At: sigAt - int64(rng.Dur(time.Millisecond, 500*time.Millisecond)), Kind: "http", Path: path, Conn: true, Hold: "hc"})
+		p.Class += "+request-in-flight"
 	}
 	burstIf := ""
 	if !scripted && rng.Bool(0.2) {
@@ -408,6 +428,25 @@ func c20Oracle(info *runInfo, res *verifsim.Result) {
 		}
 		if !failedAfter && serveExit.Err != "" {
 			res.Violate("C20.signal", "signal", "Serve returned %q after %s although no task failed", serveExit.Err, sigEv.S)
+		}
+		// ... and promptly: with real tasks only (scripted ones may be slow to stop
+		// by design) and nothing parked, everybody has stopped a second after the
+		// signal, whatever the tasks were in the middle of - a debug request from
+		// a client that does not read its response included
+		if n0 := &info.plan.Nodes[0]; len(n0.Script) == 0 {
+			slack := int64(0)
+			parked := false
+			for _, f := range info.plan.Faults {
+				if f.Seam == "watch.stop" {
+					slack = f.Lat + nsMs
+				}
+				if f.Hold != "" || (f.Lat > 0 && f.Seam != "watch.stop") {
+					parked = true
+				}
+			}
+			if !parked && serveExit.T > sigEv.T+nsSec+slack {
+				res.Violate("C20.signal", "slow", "%s at %s but Serve only returned at %s", sigEv.S, ms(sigEv.T), ms(serveExit.T))
+			}
 		}
 		// termflag
 		wantTerm := int64(1)
